@@ -10,23 +10,46 @@
 @*/
 /*@recipes
 {
+ 'subst_full': {'file': 'brush-core/src/commands.rs', 'start': r'pub\(crate\) async fn invoke_command_in_subshell_and_get_output\(', 'mode': 'fn_body', 'deasync': True,
+                'rewrites': [[r'std::io::pipe\(\)', r'__o.pipe()', 1],
+                             [r'sys::async_pipe::AsyncPipeReader::new\(reader\)', r'__o.reader(reader)', 1],
+                             [r'tokio::spawn\(run_substitution_command\(subshell, params, s\)\)', r'__o.spawn(subshell, params, s)', 1],
+                             [r'async_reader\.read_to_string\(\)', r'__o.drain(&mut async_reader)', 1],
+                             [r'= cmd_join_handle\?;', r'= __o.join(cmd_join_handle)?;', 1]]},
  'subst_prefix': {'file': 'brush-core/src/commands.rs', 'start': r'^\s*let mut subshell = shell\.clone\(\);', 'mode': 'until',
                   'end': r'^\s*(// Set up pipe so we can read the output\.\s*)?\n?\s*let \(reader, writer\) = std::io::pipe\(\)\?;'},
 }
 @*/
-use super::{error, ProcessGroupPolicy};
+use super::{error, ExecutionResult, OpenFiles, ProcessGroupPolicy};
 use crate::vk_prelude::*;
 
 #[derive(Clone)]
 pub struct DOpts { pub command_subst_inherits_errexit: bool, pub exit_on_nonzero_command_exit: bool }
 #[derive(Clone)]
-pub struct DShell { pub opts: DOpts, pub clones: u8 }
+pub struct DShell { pub opts: DOpts, pub clones: u8, pub status: u8, pub status_sets: u8 }
 impl DShell {
+    pub fn set_last_exit_status(&mut self, v: u8) { self.status = v; self.status_sets += 1; }
     pub fn options(&self) -> &DOpts { &self.opts }
     pub fn options_mut(&mut self) -> &mut DOpts { &mut self.opts }
 }
 #[derive(Clone)]
-pub struct DParams { pub suppress_errexit: bool, pub process_group_policy: ProcessGroupPolicy }
+pub struct DParams { pub suppress_errexit: bool, pub process_group_policy: ProcessGroupPolicy, pub stdout: Option<End> }
+impl DParams { pub fn set_fd(&mut self, fd: i32, e: End) { if fd == OpenFiles::STDOUT_FD { self.stdout = Some(e); } } }
+#[derive(Clone, Copy, PartialEq, Eq)]
+pub struct End { pub write: bool }
+pub struct ReaderTok { pub from: End }
+pub struct JoinTok;
+pub struct PipeOracle { pub t: u8, pub spawned_at: u8, pub drained_at: u8, pub joined_at: u8, pub child_stdout: Option<End>, pub child_exempt: bool, pub child_errexit: bool, pub code: u8, pub spawns: u8, pub reader_end: Option<End> }
+impl PipeOracle {
+    fn tick(&mut self) -> u8 { self.t += 1; self.t }
+    fn pipe(&mut self) -> Result<(End, End), error::Error> { Ok((End { write: false }, End { write: true })) }
+    fn reader(&mut self, e: End) -> Result<ReaderTok, error::Error> { self.reader_end = Some(e); Ok(ReaderTok { from: e }) }
+    fn spawn(&mut self, sub: DShell, p: DParams, s: String) -> JoinTok { std::mem::forget(s); self.spawns += 1; self.spawned_at = self.tick(); self.child_stdout = p.stdout; self.child_exempt = p.suppress_errexit; self.child_errexit = sub.opts.exit_on_nonzero_command_exit; JoinTok }
+    /// reading the substitution's output to end-of-file
+    fn drain(&mut self, _r: &mut ReaderTok) -> Result<String, error::Error> { self.drained_at = self.tick(); Ok(String::new()) }
+    /// awaiting the producer task: Ok(Ok(result)) as a JoinHandle yields
+    fn join(&mut self, _j: JoinTok) -> Result<Result<ExecutionResult, error::Error>, error::Error> { self.joined_at = self.tick(); Ok(Ok(ExecutionResult::new(self.code))) }
+}
 
 fn k_subst_prefix(shell: &mut DShell, params: &DParams) -> (DShell, DParams) {
 /*@LIFT subst_prefix*/
@@ -40,8 +63,8 @@ fn vk_c03_command_substitution_flags() {
     let errexit: bool = kani::any();
     let inherit: bool = kani::any();
     let exempt: bool = kani::any();
-    let mut sh = DShell { opts: DOpts { command_subst_inherits_errexit: inherit, exit_on_nonzero_command_exit: errexit }, clones: 0 };
-    let p = DParams { suppress_errexit: exempt, process_group_policy: ProcessGroupPolicy::NewProcessGroup };
+    let mut sh = DShell { opts: DOpts { command_subst_inherits_errexit: inherit, exit_on_nonzero_command_exit: errexit }, clones: 0, status: 0, status_sets: 0 };
+    let p = DParams { suppress_errexit: exempt, process_group_policy: ProcessGroupPolicy::NewProcessGroup, stdout: None };
     let (sub, sp) = k_subst_prefix(&mut sh, &p);
     kani::cover!(exempt && inherit && errexit, "exempt_context_with_inherit_errexit");
     kani::cover!(!exempt && !inherit && errexit, "plain_substitution_drops_errexit");
@@ -50,4 +73,27 @@ fn vk_c03_command_substitution_flags() {
     assert!(sub.opts.command_subst_inherits_errexit == inherit, "C03.subst.other_options_copied");
     assert!(sh.opts.exit_on_nonzero_command_exit == errexit && sh.opts.command_subst_inherits_errexit == inherit, "C03.subst.parent_options_untouched");
     assert!(matches!(sp.process_group_policy, ProcessGroupPolicy::SameProcessGroup), "C11.subst.runs_in_shell_process_group");
+}
+
+fn t_subst_full(shell: &mut DShell, params: &DParams, s: String, __o: &mut PipeOracle) -> Result<String, error::Error> {
+/*@LIFT subst_full*/
+}
+
+//@proof {'props': ['C11', 'C03'], 'tier': 'quick', 'timeout': 600, 'uses': ['subst_full'], 'bounds': 'errexit / inherit_errexit / exemption flag symbolic; the substituted program is an oracle with an arbitrary status', 'desc': '$(...) protocol: the program gets the write end of a fresh pipe as stdout; the parent starts it, then reads its output to end-of-file BEFORE waiting for it to finish (waiting first deadlocks once the output exceeds the pipe capacity); $? becomes the program\'s status exactly once'}
+#[kani::proof]
+#[kani::unwind(3)]
+fn vk_c11_command_substitution_drains_before_join() {
+    let mut sh = DShell { opts: DOpts { command_subst_inherits_errexit: kani::any(), exit_on_nonzero_command_exit: kani::any() }, clones: 0, status: 77, status_sets: 0 };
+    let exempt: bool = kani::any();
+    let p = DParams { suppress_errexit: exempt, process_group_policy: ProcessGroupPolicy::NewProcessGroup, stdout: None };
+    let mut o = PipeOracle { t: 0, spawned_at: 0, drained_at: 0, joined_at: 0, child_stdout: None, child_exempt: false, child_errexit: false, code: kani::any(), spawns: 0, reader_end: None };
+    let r = t_subst_full(&mut sh, &p, String::new(), &mut o);
+    kani::cover!(o.code == 3, "status_3");
+    assert!(r.is_ok(), "C11.subst.completes");
+    assert!(o.spawns == 1 && o.child_stdout == Some(End { write: true }) && o.reader_end == Some(End { write: false }), "C11.subst.program_writes_into_the_pipe_parent_reads_it");
+    assert!(o.spawned_at >= 1 && o.spawned_at < o.drained_at, "C11.subst.program_started_before_reading");
+    assert!(o.drained_at < o.joined_at, "C11.subst.output_drained_before_waiting_for_the_program");
+    assert!(sh.status == o.code && sh.status_sets == 1, "C11.subst.status_recorded_once");
+    assert!(o.child_exempt == exempt, "C03.subst.exemption_flag_inherited_unchanged");
+    std::mem::forget(r);
 }
